@@ -125,6 +125,9 @@ Additions for the randomised steps (scoring/rand.py, the hold-out splits, the DB
   cfg["int_truthiness"]      True: the truth value of a plain int (declared Z) is `negb (x =? 0)` (`if not n:`)
   cfg["assign_effects"]      a template starting with `!` denotes a `result state`: the assignment may raise (an IndexError of
                       `a[idx] = True`)
+  cfg["outside_names"]       (with cfg["body_slice"]) the identifiers the statements OUTSIDE the translated run may mention (bare
+                      names; attribute names with a leading dot).  Those statements are still not translated, but a name that is
+                      not listed - the generator argument, `.random`, `default_rng`, a new helper, an import - is refused
   cfg["typed_loop_vars"]     True: a `for` loop's variable is bound with its declared type (`let x : T := it in`), for bodies
                       from which Coq cannot infer the element type
 """
@@ -857,6 +860,8 @@ class Tr:
             if self.field_append(c) is not None:
                 x, attr, arg = self.field_append(c)
                 return self.field_store(x, attr, arg, True, env, hoist, rest, k, ind)
+            if not (isinstance(c, ast.Call) and isinstance(c.func, ast.Attribute) and isinstance(c.func.value, ast.Name)):
+                raise Unsupported("expression statement: " + ast.unparse(st)[:80])     # e.g. np.random.seed(0), f(x)
             n = c.func.value.id
             if n not in env or len(c.args) != 1 or c.keywords:
                 raise Unsupported("method call: " + ast.unparse(st))
@@ -1395,6 +1400,24 @@ def slice_body(f, markers):
     return f.body[heads.index(first):heads.index(last) + 1]
 
 
+def check_outside_names(f, run, allowed):
+    """cfg["outside_names"] (with cfg["body_slice"]): the statements of f OUTSIDE the translated run are not translated,
+    but they may mention only the listed identifiers - bare names as they are, attribute names with a leading dot (`.shape`);
+    anything else (`rng`, `.random`, `default_rng`, a new helper) is refused.  The configuration TRUSTS that each listed
+    name is what it is today (e.g. numpy array functions); the point is that a NEW name cannot appear unnoticed."""
+    allowed = set(allowed)
+    for st in f.body:
+        if any(st is r for r in run):
+            continue
+        for n in ast.walk(st):
+            name = n.id if isinstance(n, ast.Name) else "." + n.attr if isinstance(n, ast.Attribute) else None
+            if name is not None and name not in allowed:
+                raise Unsupported("statement outside the translated run mentions an undeclared name %s: %s"
+                                  % (name, ast.unparse(st).split("\n")[0][:80]))
+            if isinstance(n, (ast.Import, ast.ImportFrom, ast.Global, ast.Nonlocal, ast.FunctionDef, ast.Lambda, ast.ClassDef)):
+                raise Unsupported("statement outside the translated run: " + ast.unparse(st).split("\n")[0][:80])
+
+
 def translate(source_text, cfg):
     tree = ast.parse(source_text)
     check_inherits(tree, cfg)
@@ -1409,6 +1432,8 @@ def translate(source_text, cfg):
         cfg["vars"] = dict(cfg["vars"], yielded="list " + cfg["generator"])
         cfg["predefine"] = dict(cfg.get("predefine", {}), yielded="[]")
         cfg["implicit_return"] = "{yielded}"
+    if cfg.get("body_slice") and cfg.get("outside_names") is not None:
+        check_outside_names(f, slice_body(f, cfg["body_slice"]), cfg["outside_names"])
     if cfg.get("body_slice"):
         f.body = slice_body(f, cfg["body_slice"])      # before renaming: the markers are source text
     f = AnnToAssign().visit(f)
